@@ -7,7 +7,7 @@ CONSTANTS
     Modes = {"stream"}
     MaxBatches = 3
     MaxPts = 2
-    MaxStream = 4
+    MaxStream = 3
     BuggyCache = FALSE
 INVARIANTS
     TypeOK
